@@ -419,6 +419,8 @@ var assumptionsBase = []string{
 	"A2: z3 / cvc5 are sound; govc prints SMT-LIB faithfully",
 	"A3: govc's semantics of the Go subset (DESIGN.md section 2)",
 	"A15: integers are 64-bit vectors (not idealised); lengths < 2^40",
+	"A18: at the `v = append(v, ...)` call sites accepted by the syntactic linearity check (listed under abstractions) no other slice header in use exposes the cells behind len(v); every other append is modelled in place",
+	"A19: []byte values are immutable byte strings: in-place updates through aliased byte slices (e.g. a store buffer reused after the cursor moved) are not modelled",
 }
 
 func round3(f float64) float64 { return float64(int(f*1000+0.5)) / 1000 }
